@@ -283,6 +283,8 @@ func (session *ServerCommandSession) handleAnnounce(requestCtx nazahttp.HttpReqM
 	session.pubSession.InitWithSdp(sdpCtx)
 
 	if err = session.observer.OnNewRtspPubSession(session.pubSession); err != nil {
+		// refused by the observer: the session was never added, so it must not be reported as deleted later
+		session.pubSession = nil
 		return err
 	}
 
@@ -324,6 +326,8 @@ func (session *ServerCommandSession) handleDescribe(requestCtx nazahttp.HttpReqM
 	ok, rawSdp := session.observer.OnNewRtspSubSessionDescribe(session.subSession)
 	if !ok {
 		Log.Warnf("[%s] force close subSession.", session.uniqueKey)
+		// refused by the observer: the session was never added, so it must not be reported as deleted later
+		session.subSession = nil
 		return base.ErrRtspClosedByObserver
 	}
 
